@@ -26,7 +26,7 @@ def run(ctx):
     try:
         for name, over, sample in CFGS[ctx.tier]:
             # only paths that contain a crash belong to this property (the others are C01's)
-            st = storelib.StoreRun(ctx, name, over, sample=sample,
+            st = storelib.StoreRun(ctx, name, dict(over, EmitSel='"crash"'),  sample=sample,
                                    select=lambda sc: any(s["a"] == "crash" for s in sc["steps"])).run(pool, storelib.default_violation(ctx), cov)
             if st["feats"].get("recover", 0) == 0:
                 raise vlib.Undecided("vacuous: no recovery was replayed")
